@@ -795,7 +795,10 @@ struct BeReport {
     wall_s: f64,
 }
 
-fn be_check(dir: &Path, stride: u64) -> BeReport {
+/// the simulated machines of S5: (Miri target, what it differs from the host in)
+const S5_TARGETS: [(&str, &str); 2] = [("s390x-unknown-linux-gnu", "big-endian"), ("i686-unknown-linux-gnu", "32-bit")];
+
+fn be_check(dir: &Path, stride: u64, target: &str, what: &str) -> BeReport {
     let t0 = Instant::now();
     let mut rep = BeReport {
         status: String::new(),
@@ -809,13 +812,14 @@ fn be_check(dir: &Path, stride: u64) -> BeReport {
         return rep;
     }
     let out = std::process::Command::new("cargo")
-        .args(["+nightly", "miri", "run", "--offline", "--quiet", "--target", "s390x-unknown-linux-gnu", "--"])
+        .args(["+nightly", "miri", "run", "--offline", "--quiet", "--target", target, "--"])
         .arg(stride.to_string())
         .current_dir(dir)
         .env_remove("RUSTFLAGS")
         .env_remove("MIRIFLAGS")
-        .env_remove("CARGO_TARGET_DIR")
         .env("CARGO_NET_OFFLINE", "true")
+        // one build directory per target: the two interpreters run at the same time
+        .env("CARGO_TARGET_DIR", dir.join("target").join(target))
         .output();
     rep.wall_s = t0.elapsed().as_secs_f64();
     let out = match out {
@@ -844,8 +848,9 @@ fn be_check(dir: &Path, stride: u64) -> BeReport {
                     rep.wrong = v.parse().unwrap_or(0);
                 }
             }
-            rep.status = if s.contains("endian=big") { "ok".into() } else { format!("skipped: the interpreter did not emulate a big-endian target ({})", s) };
-            if !s.contains("endian=big") {
+            let emulated = if what == "big-endian" { s.contains("endian=big") } else { s.contains("width=32") };
+            rep.status = if emulated { "ok".into() } else { format!("skipped: the interpreter did not emulate a {} target ({})", what, s) };
+            if !emulated {
                 rep.wrong = 0;
                 rep.mismatches.clear();
             }
@@ -859,14 +864,14 @@ fn be_check(dir: &Path, stride: u64) -> BeReport {
                 rep.mismatches.push(format!("BE-MISMATCH the interpreter stopped the lookup: {}", err.lines().find(|l| l.contains("Undefined Behavior")).unwrap_or("")));
                 rep.status = "ok".into();
             } else {
-                rep.status = format!("skipped: big-endian interpreter run unavailable ({})", why.chars().take(160).collect::<String>());
+                rep.status = format!("skipped: {} interpreter run unavailable ({})", what, why.chars().take(160).collect::<String>());
             }
         }
     }
     rep
 }
 
-fn be_violations(rep: &BeReport) -> Vec<Violation> {
+fn be_violations(rep: &BeReport, target: &str, what: &str) -> Vec<Violation> {
     if rep.wrong == 0 {
         return vec![];
     }
@@ -875,10 +880,10 @@ fn be_violations(rep: &BeReport) -> Vec<Violation> {
     vec![Violation {
         class: "S5".into(),
         table: table.clone(),
-        signature: format!("S5:{}:big-endian-lookup", table),
+        signature: format!("S5:{}:{}-lookup", table, what),
         detail: format!(
-            "on a big-endian target (Miri, s390x) {} of {} looked-up rows do not come back from likelysubtags::maximize as the well-formed subtags the table encodes: the stored integers do not decode to well-formed subtags there, which the unchecked constructors rely on; first: {}",
-            rep.wrong, rep.rows, first
+            "on a {} target (Miri, {}) {} of {} looked-up rows do not come back from likelysubtags::maximize as the well-formed subtags the table encodes (the table entries are not what the lookup and its unchecked constructors rely on there); first: {}",
+            what, target, rep.wrong, rep.rows, first
         ),
     }]
 }
@@ -1195,7 +1200,10 @@ fn cmd_check(a: &Args) -> i32 {
     // S5 runs in the background while the simulation batches run
     let be_dir = a.opts.get("becheck").map(PathBuf::from);
     let be_stride = opt_u64(a, "be-stride", if tier == "quick" { 400 } else { 24 });
-    let be_thread = be_dir.clone().map(|d| std::thread::spawn(move || be_check(&d, be_stride)));
+    let be_threads: Vec<_> = S5_TARGETS
+        .iter()
+        .filter_map(|(target, what)| be_dir.clone().map(|d| std::thread::spawn(move || be_check(&d, be_stride, target, what))))
+        .collect();
 
     // ---- simulation batches
     // one run of each program under the all-default schedule on this thread first: settles, before
@@ -1395,17 +1403,12 @@ fn cmd_check(a: &Args) -> i32 {
         }
     }
 
-    let be = match be_thread {
-        Some(t) => t.join().unwrap_or_else(|_| harness_error("the big-endian check thread panicked")),
-        None => BeReport {
-            status: "not requested".into(),
-            rows: 0,
-            wrong: 0,
-            mismatches: vec![],
-            wall_s: 0.0,
-        },
-    };
-    println!("big-endian machine (Miri, s390x): {} rows looked up, {} wrong ({}, {:.1}s)", be.rows, be.wrong, be.status, be.wall_s);
+    let mut bes: Vec<(&str, &str, BeReport)> = vec![];
+    for ((target, what), t) in S5_TARGETS.iter().zip(be_threads.into_iter()) {
+        let rep = t.join().unwrap_or_else(|_| harness_error("an S5 thread panicked"));
+        println!("{} machine (Miri, {}): {} rows looked up, {} wrong ({}, {:.1}s)", what, target, rep.rows, rep.wrong, rep.status, rep.wall_s);
+        bes.push((target, what, rep));
+    }
     // ---- collect violations: static first, then per-run (one replay per violation class)
     let mut reported: Vec<(Violation, PathBuf)> = vec![];
     let mut known_lines: Vec<String> = vec![];
@@ -1418,13 +1421,15 @@ fn cmd_check(a: &Args) -> i32 {
         let p = write_replay(&replay_dir, &ctx, "static", None, seed, None, &tier, v, &[], json!(null));
         reported.push((v.clone(), p));
     }
-    for v in be_violations(&be) {
-        if let Some((_s, what)) = is_known(&v) {
-            known_lines.push(format!("KNOWN-FINDING: property={} {} ({})", PROPERTY, v.signature, what));
-            continue;
+    for (target, what, rep) in &bes {
+        for v in be_violations(rep, target, what) {
+            if let Some((_s, w)) = is_known(&v) {
+                known_lines.push(format!("KNOWN-FINDING: property={} {} ({})", PROPERTY, v.signature, w));
+                continue;
+            }
+            let p = write_replay(&replay_dir, &ctx, "static-be", None, seed, None, &tier, &v, &[], json!({"becheck": be_dir.as_ref().map(|d| d.display().to_string()), "stride": be_stride, "target": target, "what": what}));
+            reported.push((v, p));
         }
-        let p = write_replay(&replay_dir, &ctx, "static-be", None, seed, None, &tier, &v, &[], json!({"becheck": be_dir.as_ref().map(|d| d.display().to_string()), "stride": be_stride}));
-        reported.push((v, p));
     }
     let mut classes_done_global: BTreeSet<String> = BTreeSet::new();
     for (batch, gen, cov) in [(Batch::Cover, Gen::Layout, &cvr), (Batch::Random, Gen::Layout, &lay), (Batch::Random, Gen::Likely, &lik)] {
@@ -1705,13 +1710,13 @@ fn cmd_check(a: &Args) -> i32 {
                 "static_violations": st.violations.len(),
                 "reference_packer": if oracle::init_packer(&ctx.image).fallback { "library conversions (own little-endian packer disagrees with the library)" } else { "own little-endian ASCII packer (agrees with the library's conversions on every CLDR subtag)" },
             },
-            "big_endian_machine": {
-                "note": "S5: rows of the six likely-subtags tables (every k-th, first and last of each) looked up through the real likelysubtags::maximize under Miri for s390x-unknown-linux-gnu and compared, as text, with the row decoded by shift and mask; the tables' integers are byte-order-dependent input of unsafe unchecked constructors",
-                "status": be.status,
+            "other_machines": {
+                "note": "S5: rows of the six likely-subtags tables (every k-th, first and last of each) looked up through the real likelysubtags::maximize under Miri for a big-endian target and for a 32-bit target, and compared, as text, with the row decoded by shift and mask; the tables' integers are byte-order- and width-dependent input of the lookup and of unsafe unchecked constructors",
                 "stride": be_stride,
-                "rows_looked_up": be.rows,
-                "rows_wrong": be.wrong,
-                "wall_s": be.wall_s,
+                "machines": bes.iter().map(|(target, what, rep)| json!({
+                    "target": target, "differs_from_the_host_in": what, "status": rep.status,
+                    "rows_looked_up": rep.rows, "rows_wrong": rep.wrong, "wall_s": rep.wall_s,
+                })).collect::<Vec<_>>(),
             },
             "real_process_reruns": {
                 "note": "fidelity cross-check of the simulator: the repository's generator binaries built without the hook and run as real processes (real file system order, real RandomState); their output must equal the compiled tables like every simulated run's",
@@ -1989,11 +1994,13 @@ fn cmd_replay(a: &Args) -> i32 {
         Some("static-be") => {
             let dir = PathBuf::from(j["minimisation"]["becheck"].as_str().unwrap_or("/verif/becheck"));
             let stride = j["minimisation"]["stride"].as_u64().unwrap_or(400);
-            let rep = be_check(&dir, stride);
+            let target = j["minimisation"]["target"].as_str().unwrap_or("s390x-unknown-linux-gnu").to_string();
+            let what = j["minimisation"]["what"].as_str().unwrap_or("big-endian").to_string();
+            let rep = be_check(&dir, stride, &target, &what);
             if !quiet {
-                println!("big-endian machine: {} rows looked up, {} wrong ({})", rep.rows, rep.wrong, rep.status);
+                println!("{} machine: {} rows looked up, {} wrong ({})", what, rep.rows, rep.wrong, rep.status);
             }
-            be_violations(&rep)
+            be_violations(&rep, &target, &what)
         }
         Some("real") => {
             let gen = Gen::parse(j["generator"].as_str().unwrap_or("")).unwrap_or_else(|| harness_error("replay file: bad generator"));
